@@ -32,12 +32,16 @@ def _dy(v, bits=6):
 
 
 class Vec:
-    __slots__ = ("name", "comps", "tags")
+    """phi_turns != 0 marks a *non-canonical* storage: when the vector is stored in a rho-phi system its azimuth is
+    stored as atan2(y, x) + phi_turns * 2 pi (the same geometric vector; a legitimate stored value outside [-pi, pi])."""
 
-    def __init__(self, name, comps, tags):
+    __slots__ = ("name", "comps", "tags", "phi_turns")
+
+    def __init__(self, name, comps, tags, phi_turns=0):
         self.name = name
         self.comps = tuple(float(c) for c in comps)
         self.tags = frozenset(tags)
+        self.phi_turns = phi_turns
 
     @property
     def dim(self):
@@ -58,6 +62,8 @@ def vectors2(tier="quick", boundary=False):
     pts = Q2_A + (Q2_B if tier == "thorough" else Q2_B[:2])
     for i, (x, y) in enumerate(pts):
         out.append(Vec(f"a{i}", (x, y), _tags2(x, y) | {"generic"}))
+    out.append(Vec("wild+", (-0.9375, 1.375), {"generic", "wildphi", "q2"}, phi_turns=1))
+    out.append(Vec("wild-", (1.0625, -0.5625), {"generic", "wildphi", "q4"}, phi_turns=-1))
     if boundary:
         for i, (x, y) in enumerate([(1.5, 0.0), (0.0, 2.25), (-0.75, 0.0), (0.0, -1.25)]):
             out.append(Vec(f"ax{i}", (x, y), {"boundary", "on_axis2"}))
@@ -76,6 +82,8 @@ def vectors3(tier="quick", boundary=False):
             zz = z * (1 + 0.25 * (i % 3))
             out.append(Vec(f"b{k}", (x, y, zz), _tags2(x, y) | {"generic", "up" if zz > 0 else "down"}))
             k += 1
+    out.append(Vec("wild+", (-0.9375, 1.375, -0.6875), {"generic", "wildphi", "q2", "down"}, phi_turns=1))
+    out.append(Vec("wild-", (1.0625, -0.5625, 2.125), {"generic", "wildphi", "q4", "up"}, phi_turns=-1))
     # near the z axis (rho = 2^-10 |z|), both hemispheres: theta/eta conditioning
     for j, z in enumerate([1.75, -2.5]):
         r = abs(z) / 1024
@@ -98,7 +106,7 @@ def vectors4(tier="quick", boundary=False, kinds=("timelike", "fast", "spacelike
     negtime        t < 0                representable in t storage only
     """
     out = []
-    base = [v for v in vectors3(tier) if not v.has("near_axis")]
+    base = [v for v in vectors3(tier) if not v.has("near_axis") and not v.has("wildphi")]
     if tier != "thorough":
         base = base[::2] + [base[1], base[7]]
     base = base + [v for v in vectors3(tier) if v.has("near_axis")]
@@ -134,6 +142,8 @@ def vectors4(tier="quick", boundary=False, kinds=("timelike", "fast", "spacelike
                 tags.add("forward_timelike")
             out.append(Vec(f"c{k}", (x, y, z, t), tags))
             k += 1
+    out.append(Vec("wild+", (-0.9375, 1.375, -0.6875, 2.75), {"generic", "wildphi", "timelike", "forward_timelike", "down"}, phi_turns=1))
+    out.append(Vec("wild-", (1.0625, -0.5625, 2.125, 3.5), {"generic", "wildphi", "timelike", "forward_timelike", "up"}, phi_turns=-1))
     if boundary:
         # exactly light-like: Pythagorean quadruple (3,4,12,13)/8 and sign variants
         out.append(Vec("light0", (0.375, 0.5, 1.5, 1.625), {"boundary", "lightlike"}))
